@@ -1,3 +1,5 @@
 import Proofs.Hyperslab
+import Proofs.Path
+import Proofs.PathServe
 import Proofs.Slice
 import Proofs.SliceTuple
